@@ -8,6 +8,7 @@ package main
 
 import (
 	"fmt"
+	"log/slog"
 	"os"
 	"reflect"
 	"strings"
@@ -319,6 +320,59 @@ func newRoot2(kind int, w *ssink) *logger.Logger {
 	return logger.New(logger.NewJsonHandler(w, opts))
 }
 
+// emptyGroupGivenToWith: at the call site an empty group does not appear (log/slog's Record
+// drops it), so given to With it must not appear either: the derived logger writes what its
+// parent writes, and With(empty group, k=1) what With(k=1) writes - in every context.
+func emptyGroupGivenToWith(kind int) (evals int, viols []vcommon.Violation) {
+	type ctxT struct {
+		name string
+		mk   func(*logger.Logger) *logger.Logger
+	}
+	ctxs := []ctxT{
+		{"root", func(l *logger.Logger) *logger.Logger { return l }},
+		{"With(a=1)", func(l *logger.Logger) *logger.Logger { return l.With("a", 1) }},
+		{"WithGroup(g)", func(l *logger.Logger) *logger.Logger { return l.WithGroup("g") }},
+		{"With(a=1).WithGroup(g)", func(l *logger.Logger) *logger.Logger { return l.With("a", 1).WithGroup("g") }},
+		{"WithGroup(g).With(a=1)", func(l *logger.Logger) *logger.Logger { return l.WithGroup("g").With("a", 1) }},
+	}
+	type caseT struct {
+		name       string
+		with, same func(*logger.Logger) *logger.Logger
+	}
+	cases := []caseT{
+		{`With(Group("e"))`, func(l *logger.Logger) *logger.Logger { return l.With(slog.Group("e")) }, func(l *logger.Logger) *logger.Logger { return l }},
+		{`With(Group("e"), k=1)`, func(l *logger.Logger) *logger.Logger { return l.With(slog.Group("e"), "k", 1) }, func(l *logger.Logger) *logger.Logger { return l.With("k", 1) }},
+		{`With(k=1, Group("e"))`, func(l *logger.Logger) *logger.Logger { return l.With("k", 1, slog.Group("e")) }, func(l *logger.Logger) *logger.Logger { return l.With("k", 1) }},
+		{`With(Group("e", Group("f")))`, func(l *logger.Logger) *logger.Logger { return l.With(slog.Group("e", slog.Group("f"))) }, func(l *logger.Logger) *logger.Logger { return l }},
+	}
+	for _, cx := range ctxs {
+		for _, cs := range cases {
+			for _, call := range [][]any{nil, {"p", "v"}} {
+				evals++
+				w1, w2 := &sink{}, &sink{}
+				cs.with(cx.mk(newRoot(kind, w1))).Info("probe", call...)
+				cs.same(cx.mk(newRoot(kind, w2))).Info("probe", call...)
+				got, want := strings.Join(w1.chunks, ""), strings.Join(w2.chunks, "")
+				if got != want {
+					viols = append(viols, vcommon.Violation{Scenario: "E-" + handlerNames[kind] + "-empty-group-given-to-With",
+						Fingerprint: fmt.Sprintf("empty-group|%s|%s|%s", handlerNames[kind], cx.name, cs.name),
+						Message:     fmt.Sprintf("C03 (%s): %s.%s.Info(probe%v) wrote\n   %q\nalthough an empty group passed at the call site does not appear, so the line should be\n   %q", handlerNames[kind], cx.name, cs.name, call, clipS(got), clipS(want)),
+						Witness:     map[string]any{"handler": handlerNames[kind], "context": cx.name, "derivation": cs.name}})
+					return
+				}
+			}
+		}
+	}
+	return
+}
+
+func clipS(s string) string {
+	if len(s) > 300 {
+		return s[:300] + "…"
+	}
+	return s
+}
+
 func main() {
 	fake := time.Date(2023, 8, 16, 0, 35, 15, 208873091, time.FixedZone("", 8*3600))
 	vtime.SetFake(&fake)
@@ -339,6 +393,13 @@ func main() {
 	states, trans := 0, 0
 	complete := true
 	nontriv := 0
+	emptyEvals := 0
+	for kind := 0; kind < 3; kind++ {
+		n, v := emptyGroupGivenToWith(kind)
+		emptyEvals += n
+		viols = append(viols, v...)
+	}
+	cov["empty_group_given_to_With_cases"] = emptyEvals
 	var searches []*vstate.Result
 	for kind := 0; kind < 3; kind++ {
 		kind := kind
